@@ -20,7 +20,8 @@ RULE = ("Hypothesis draws (solver, dtype, shape, system family, conditioning inc
         "Jacobian given or not). Distinct = SHA-1 of the case JSON. Non-trivial = far start (>= 5 away), singular or rank-deficient "
         "matrix, a system without a root, or longdouble.")
 ASSUMPTIONS = ["a reported success is judged by the true residual, recomputed by the harness in longdouble",
-               "the bound 10 tol (n + |x|) max(1, |J|) is the solvers' documented x-criterion times the Lipschitz constant"]
+               "the bound 10 tol (n + |x|) max(1, |J|) is the solvers' documented x-criterion times the Lipschitz constant",
+               "the undocumented keyword var_bounds is not exercised: with bounds shaped like x0 every solver raises ValueError, with column-shaped bounds the result has shape (n, n) and the chain rule multiplies element-wise (an unfinished feature, see DESIGN.md section 10)"]
 
 DT = {"float32": np.float32, "float64": np.float64, "longdouble": np.longdouble}
 SHAPES = [[], [1], [2], [3], [5], [8], [12], [2, 2], [2, 3]]
